@@ -245,6 +245,10 @@ void Groups::evalArguments( int argc, char* argv[]) noexcept( false)
                                     + "'");
          throw runtime_error( "Unknown argument '" + ai->mArgString + "'");
       } // end if
+
+      // an argument with value mode "command" took the rest of the command line
+      if (result == Handler::ArgResult::last)
+         break;   // for
    } // end for
 
    if (!mContinueAfterUsage || !usage_printed)
